@@ -114,7 +114,13 @@ public:
     explicit(N != rank_dynamic()) constexpr extents(span<OtherIndexType, N> ext) noexcept
     {
         if constexpr (rank_dynamic() != 0) {
-            transform(ext.begin(), ext.end(), _extents.begin(), [](auto e) { return static_cast<IndexType>(e); });
+            // N == rank(): ext holds every extent, only the dynamic positions are stored
+            for (rank_type i{0}; i < rank(); ++i) {
+                if (static_extent(i) == dynamic_extent) {
+                    auto const d = _dynamic_index(i);
+                    _extents[d]  = static_cast<IndexType>(ext[N == rank() ? i : d]);
+                }
+            }
         }
     }
 
